@@ -41,7 +41,7 @@ kinds! {
 /// |---|---|---|---|---|
 /// | Pin/Unpin/Reactivate/Flush | guard | | | |
 /// | ReactAfter | guard | body (0 noop, 1 panic, 2 nested pin+unpin, 3 pin+flush+unpin) | | |
-/// | New | dst rc | extra-from rc (99 none) | | |
+/// | New | dst rc | extra-from rc (99 none) | rank class (0 = random rank) | |
 /// | NewMany | n | | | |
 /// | NewIter | count | take | abort? | guard |
 /// | Clone | src rc | dst rc | | |
@@ -170,6 +170,8 @@ pub struct StallCfg {
     pub site: u32,
     pub nth: u32,
     pub k: u64,
+    /// release when this signal is raised (0 = none); `k` epochs remain the fallback
+    pub release_signal: u32,
 }
 
 #[derive(Clone, Debug, PartialEq)]
@@ -243,7 +245,7 @@ impl RunCfg {
             .set("lin", self.lin)
             .set("quarantine", self.quarantine);
         if let Some(s) = &self.stall {
-            j.put("stall", J::obj().set("victim", s.victim).set("site", s.site).set("nth", s.nth).set("k", s.k));
+            j.put("stall", J::obj().set("victim", s.victim).set("site", s.site).set("nth", s.nth).set("k", s.k).set("release_signal", s.release_signal));
         }
         j
     }
@@ -261,7 +263,7 @@ impl RunCfg {
             p_switch: j.get("p_switch").and_then(|x| x.as_f64()).unwrap_or(0.1),
             pct_depth: j.getu("pct_depth") as u32,
             hot_mask: j.getu("hot_mask"),
-            stall: j.get("stall").map(|s| StallCfg { victim: s.getu("victim") as u32, site: s.getu("site") as u32, nth: s.getu("nth") as u32, k: s.getu("k") }),
+            stall: j.get("stall").map(|s| StallCfg { victim: s.getu("victim") as u32, site: s.getu("site") as u32, nth: s.getu("nth") as u32, k: s.getu("k"), release_signal: s.getu("release_signal") as u32 }),
             buggify_p: j.get("buggify_p").and_then(|x| x.as_f64()).unwrap_or(0.0),
             step_cap: j.getu("step_cap"),
             janitor_rounds: j.getu("janitor_rounds") as u32,
@@ -281,7 +283,8 @@ pub struct RunDesc {
     pub threads: Vec<ThreadProg>,
     /// family-specific parameters (CHAIN, AGE-SWEEP, QUEUE, LIST ...)
     pub params: J,
-    pub schedule: Option<Vec<(u32, u32)>>,
+    /// context switches: (from thread, op index, step within op, to thread); thread u32::MAX-1 = start
+    pub schedule: Option<Vec<(u32, u32, u32, u32)>>,
     pub buggify_script: Option<Vec<u64>>,
 }
 
@@ -295,7 +298,7 @@ impl RunDesc {
             .set("params", self.params.clone())
             .set("threads", J::Arr(self.threads.iter().map(|t| t.to_json()).collect()));
         if let Some(s) = &self.schedule {
-            j.put("schedule", J::Arr(s.iter().map(|&(t, c)| J::Arr(vec![J::Int(t as i64), J::Int(c as i64)])).collect()));
+            j.put("schedule", J::Arr(s.iter().map(|&(f, o, st, t)| J::Arr(vec![J::Int(f as i64), J::Int(o as i64), J::Int(st as i64), J::Int(t as i64)])).collect()));
         }
         if let Some(b) = &self.buggify_script {
             j.put("buggify_script", J::Arr(b.iter().map(|&x| J::Int(x as i64)).collect()));
@@ -314,7 +317,7 @@ impl RunDesc {
                 a.iter()
                     .filter_map(|p| {
                         let p = p.as_arr()?;
-                        Some((p.first()?.as_u64()? as u32, p.get(1)?.as_u64()? as u32))
+                        Some((p.first()?.as_u64()? as u32, p.get(1)?.as_u64()? as u32, p.get(2)?.as_u64()? as u32, p.get(3)?.as_u64()? as u32))
                     })
                     .collect()
             }),
